@@ -38,7 +38,8 @@ RULE = (
 TOL = 1e-8
 TIMES = {}
 ROUTES = set()
-HEADER = tm.HEADER + "From QV Require Import C13.Model.\n"
+HEADER = tm.HEADER + "From QV Require Import C13.Model C13.Options.\n"
+OPT_CASES = {}  # Coq bool expression -> description (option-flow / exponent-register correspondence, deduplicated)
 
 
 # ----------------------------------------------------------------------------------
@@ -422,6 +423,7 @@ class Checker:
         for name, kind, thunk, *rest_ in routes:
             base = name.split("[")[0]
             self.kopts = rest_[0] if rest_ else None  # option class that goes into the violation key (cube routes)
+            coqcall = rest_[1] if len(rest_) > 1 else None  # the model's prediction of what this call returns
             key_case = (self.sdesc.get("id"), [str(s) for s in where], name)
             ctx.count(key_case, len(where) < len(ref.sites) and not np.allclose(G, G.conj().T))
             ctx.bump("route:" + base)
@@ -444,12 +446,42 @@ class Checker:
                 ctx.violation(key or f"{self.kp(base, ref)}:raised:{type(e).__name__}",
                               f"{name} raised {type(e).__name__}: {str(e)[:160]} on {self.family} where={where}", replay)
                 continue
+            if coqcall is not None:
+                self.observe_class(name, coqcall, res, where, G, ref)
             try:
                 self.compare(name, kind, res, where, G, exact, ref, replay)
             except Exception as e:
                 ctx.violation(f"{self.kp(base, ref)}:malformed", f"{name} returned a malformed result: {type(e).__name__}: {str(e)[:160]}", replay)
 
     kopts = None
+
+    def observe_class(self, name, coqcall, res, where, G, ref):
+        """which of  <G>/<1> (Ratio),  <G> (Raw),  (<G>, <1>) (Pair)  did the call return?  Decided against the
+        dense reference independently of what was requested; the model's table (C13/Options.v route_class) must
+        predict exactly this class.  Ambiguous or unclassifiable results are left to the oracle."""
+        try:
+            obs = None
+            if isinstance(res, tuple) and len(res) == 2:
+                obs = "Pair"
+            else:
+                a = np.asarray(res)
+                if a.size == 1:
+                    v = complex(a.reshape(-1)[0])
+                    raw = ref.expec(G, where)
+                    is_raw, is_ratio = close(v, raw, abs(raw)), close(v, raw / ref.n2, abs(raw / ref.n2))
+                else:
+                    raw = ref.rho(where)
+                    M = a.reshape(raw.shape)
+                    is_raw, is_ratio = close(M, raw), close(M, raw / np.trace(raw))
+                if is_raw != is_ratio:
+                    obs = "Raw" if is_raw else "Ratio"
+            if obs is None:
+                self.ctx.bump("option_flow:unclassified_left_to_oracle")
+                return
+            OPT_CASES.setdefault(f"out_eqb ({coqcall}) {obs}", f"{name}: returned class {obs}")
+            self.ctx.bump("option_flow:observed_" + obs)
+        except Exception:
+            self.ctx.bump("option_flow:unclassified_left_to_oracle")
 
     @staticmethod
     def expo(ref):
@@ -467,6 +499,8 @@ class Checker:
         import re as _re
 
         m = _re.search(r"normalized=([A-Za-z]+)", name)
+        if m is None and "global" in name:
+            return "global"
         return m.group(1) if m else str(k0.endswith("_n"))
 
     def scale_tag(self, got, want, ref, unnormalised):
@@ -519,15 +553,16 @@ class Checker:
                 key = f"{kp}:rdm:{tag}"
                 if tag == "value":
                     raw = ref.rho(where)
-                    if self.kopts is not None and k0 == "rdm_u" and close(M, raw / np.trace(raw)):
+                    # (a state whose tensors alone have norm 1 makes "exponent ignored" and "normalised" coincide:
+                    # the exponent class is tested first)
+                    st = self.scale_tag(M, want, ref, k0 == "rdm_u")
+                    if st is not None:
+                        # input class: scale held in `exponent`, unnormalised result requested (any backend)
+                        key = f"{base}:scale=exponent:rdm:{st}:normalized={k0 == 'rdm_n'}"
+                    elif self.kopts is not None and k0 == "rdm_u" and close(M, raw / np.trace(raw)):
                         key = f"{kp}:rdm:normalised_although_unnormalised_requested"
                     elif self.kopts is not None and k0 == "rdm_n" and close(M, raw, floor=fl_u):
                         key = f"{kp}:rdm:unnormalised_although_normalised_requested"
-                    else:
-                        st = self.scale_tag(M, want, ref, k0 == "rdm_u")
-                        if st is not None:
-                            # input class: scale held in `exponent`, unnormalised result requested (any backend)
-                            key = f"{base}:scale=exponent:rdm:{st}:normalized={k0 == 'rdm_n'}"
                     tag = key.split(":rdm:")[1]
                 ctx.violation(key,
                               f"{name}: reduced density matrix differs from the dense one ({tag}; hermitian={herm}, trace_ok={tr_ok}) "
@@ -553,18 +588,17 @@ class Checker:
                 key = f"{kp}:expectation:{tag}"
                 if tag == "value":
                     # which normalisation did the route apply?  (N != 1 for every state drawn)
-                    if self.kopts is not None and k0 == "exp_u" and close(v, raw / n2, abs(raw / n2)):
+                    st = self.scale_tag(v, want, ref, k0 == "exp_u")
+                    if st is not None:
+                        tag = st
+                        # input class: scale held in `exponent` x normalisation requested (any backend / combine)
+                        key = f"{base}:scale=exponent:expectation:{st}:normalized={self.nz_label(name, k0)}"
+                    elif self.kopts is not None and k0 == "exp_u" and close(v, raw / n2, abs(raw / n2)):
                         tag = "normalised_although_unnormalised_requested"
                         key = f"{kp}:expectation:{tag}"
                     elif self.kopts is not None and k0 == "exp_n" and close(v, raw, abs(raw), floor=fl_u):
                         tag = "unnormalised_although_normalised_requested"
                         key = f"{kp}:expectation:{tag}"
-                    else:
-                        st = self.scale_tag(v, want, ref, k0 == "exp_u")
-                        if st is not None:
-                            tag = st
-                            # input class: scale held in `exponent` x normalisation requested (any backend / combine)
-                            key = f"{base}:scale=exponent:expectation:{st}:normalized={self.nz_label(name, k0)}"
                 ctx.violation(key,
                               f"{name}: got {v}, dense <psi|O|psi>{'/<psi|psi>' if k0 == 'exp_n' else ''} = {want} ({tag}) "
                               f"on {self.family} where={where}" + (f", exponent={self.expo(ref):.4g}" if self.expo(ref) else ""),
@@ -634,8 +668,15 @@ def cube_routes(tn, G, where, nsites, allsites, gauges=None, ring=False, opt="gr
     gl = [tuple(allsites)]
     R = []
 
-    def add(api, opts, kind, thunk):
-        R.append((f"{api}[{opts}{gs}]", kind, thunk, opts))
+    NM = {True: "NTrue", False: "NFalse", "return": "NReturn", "prod": "NProd", "local": "NLocal",
+          "separate": "NSeparate", "global": "NGlobal"}
+
+    def add(api, opts, kind, thunk, model=None):
+        R.append((f"{api}[{opts}{gs}]", kind, thunk, opts, model))
+
+    def rc(capi, mb, csum, nz):
+        """C13/Options.v: route_class api max_bond combine_is_sum mode"""
+        return f"route_class {capi} {'true' if mb else 'false'} {'true' if csum else 'false'} {NM[nz]}"
 
     def ek(nz):
         return "exp_u" if nz is False else "exp_n"
@@ -646,32 +687,49 @@ def cube_routes(tn, G, where, nsites, allsites, gauges=None, ring=False, opt="gr
             o = f"normalized={nz},max_bond={'int' if mb else None}"
             co = dict(cutoff=0.0) if mb else {}
             add("local_expectation_cluster", o, ek(nz), lambda nz=nz, mb=mb, co=co: tn.local_expectation_cluster(
-                G, where, normalized=nz, max_distance=big, max_bond=mb, optimize=opt, **co, **gk))
+                G, where, normalized=nz, max_distance=big, max_bond=mb, optimize=opt, **co, **gk), rc("ClusterLocal", mb, False, nz))
             add("compute_local_expectation_cluster", o, ek(nz), lambda nz=nz, mb=mb, co=co: tn.compute_local_expectation_cluster(
-                {where: G}, normalized=nz, max_distance=big, max_bond=mb, optimize=opt, return_all=True, **co, **gk)[where])
+                {where: G}, normalized=nz, max_distance=big, max_bond=mb, optimize=opt, return_all=True, **co, **gk)[where],
+                rc("ClusterCompute", mb, False, nz))
     for nz, kind in ((True, "rdm_n"), (False, "rdm_u"), ("return", "rdm_u+norm")):
         add("partial_trace_cluster", f"normalized={nz}", kind, lambda nz=nz: tn.partial_trace_cluster(
-            where, normalized=nz, max_distance=big, optimize=opt, **gk))
+            where, normalized=nz, max_distance=big, optimize=opt, **gk), rc("ClusterRdm", False, False, nz))
     # -- generalized-loop expansion, one loop = the whole network: combine x normalized -----------------------------------
     for combine in ("prod", "sum"):
         for nz in NZ_GLOOP:
             o = f"combine={combine},normalized={nz}"
             add("local_expectation_gloop_expand", o, ek(nz), lambda nz=nz, combine=combine: tn.local_expectation_gloop_expand(
-                G, where, gloops=gl, gauges=gd, combine=combine, normalized=nz, autoreduce=False, optimize=opt))
+                G, where, gloops=gl, gauges=gd, combine=combine, normalized=nz, autoreduce=False, optimize=opt),
+                rc("GloopLocal", False, combine == "sum", nz))
             add("compute_local_expectation_gloop_expand", o, ek(nz), lambda nz=nz, combine=combine: tn.compute_local_expectation_gloop_expand(
-                {where: G}, gloops=gl, gauges=gd, combine=combine, normalized=nz, autoreduce=False, optimize=opt, return_all=True)[where])
+                {where: G}, gloops=gl, gauges=gd, combine=combine, normalized=nz, autoreduce=False, optimize=opt, return_all=True)[where],
+                rc("GloopCompute", False, combine == "sum", nz))
         add("compute_local_expectation_gloop_expand", f"combine={combine},normalized=global", "exp_n",
             lambda combine=combine: tn.compute_local_expectation_gloop_expand(
-                {where: G}, gloops=gl, gauges=gd, combine=combine, normalized="global", autoreduce=False, optimize=opt))
+                {where: G}, gloops=gl, gauges=gd, combine=combine, normalized="global", autoreduce=False, optimize=opt),
+            rc("GloopCompute", False, combine == "sum", "global"))
+    # -- the same with a redundant second region (a proper sub-region of the whole network): the region counting must
+    #    give it weight 0, so every mode still returns the dense answer ------------------------------------------------
+    others = [s_ for s_ in allsites if s_ not in where]
+    if len(others) >= 2:
+        gl2 = [tuple(allsites), tuple(where) + (others[0],)]
+        for combine in ("prod", "sum"):
+            for nz in (True, False):
+                o = f"combine={combine},normalized={nz},gloops=whole+subregion"
+                add("local_expectation_gloop_expand", o, ek(nz), lambda nz=nz, combine=combine: tn.local_expectation_gloop_expand(
+                    G, where, gloops=gl2, gauges=gd, combine=combine, normalized=nz, autoreduce=False, optimize=opt),
+                    rc("GloopLocal", False, combine == "sum", nz))
     # -- simple-loop expansion on a ring (the one loop is the ring) -----------------------------------------------------
     if ring:
         for combine in ("prod", "sum"):
             for nz in NZ_GLOOP:
                 o = f"combine={combine},normalized={nz}"
                 add("local_expectation_sloop_expand", o, ek(nz), lambda nz=nz, combine=combine: tn.local_expectation_sloop_expand(
-                    G, where, sloops=nsites, combine=combine, normalized=nz, autoreduce=False, optimize=opt, **gk))
+                    G, where, sloops=nsites, combine=combine, normalized=nz, autoreduce=False, optimize=opt, **gk),
+                    rc("SloopLocal", False, combine == "sum", nz))
                 add("compute_local_expectation_sloop_expand", o, ek(nz), lambda nz=nz, combine=combine: tn.compute_local_expectation_sloop_expand(
-                    {where: G}, sloops=nsites, combine=combine, normalized=nz, autoreduce=False, optimize=opt, **gk))
+                    {where: G}, sloops=nsites, combine=combine, normalized=nz, autoreduce=False, optimize=opt, **gk),
+                    rc("SloopCompute", False, combine == "sum", nz))
     return R
 
 
@@ -1033,7 +1091,44 @@ def stage_option_cube(ctx, cases):
             ctx.bump("scale:" + label)
             run_state(ctx, cases, kind, net, f"{sid}_{label}", where_list=wl, n_ops=1, cube=True,
                       legacy=(label != "tensors"),  # the legacy routes on exponent-free states are stage_states
-                      scale_exp=k, coq_budget=None if (label in ("tensors", "exponent_int")) else 0, **kw)
+                      scale_exp=k, **kw,
+                      # what these cases add is the option / exponent bookkeeping, not the network evaluator: in the
+                      # quick tier the state goes to Coq as one dense tensor; float-scaled variants are oracle only
+                      coq_budget=ctx.n(1, 60000) if (label in ("tensors", "exponent_int")) else 0)
+            if k is not None:
+                observe_global_register(ctx, net, wl[0], k)
+
+
+def observe_global_register(ctx, tn, where, k):
+    """normalized="global": the network handed to the per-term contractions must have an empty exponent register
+    (C13/Options.v global_prepare = distribute o smul; theorem C13_global_normalisation_distributes_exponent).
+    Observed by rebinding the module global _compute_expecs_maybe_in_parallel for one call."""
+    import quimb.tensor.tnag.core as core
+
+    seen = []
+    orig = core._compute_expecs_maybe_in_parallel
+
+    def spy(**kw):
+        seen.append(float(kw["tn"].exponent))
+        return orig(**kw)
+
+    G = np.eye(int(np.prod([tn.ind_size(tn.site_ind(s)) for s in where])), dtype=complex)
+    core._compute_expecs_maybe_in_parallel = spy
+    try:
+        tn.compute_local_expectation_gloop_expand({where: G}, gloops=[tuple(tn.sites)], gauges={}, autoreduce=False,
+                                                  normalized="global", optimize="greedy")
+    except Exception:
+        ctx.bump("option_flow:register_not_observed")
+        return
+    finally:
+        core._compute_expecs_maybe_in_parallel = orig
+    if len(seen) == 1 and float(seen[0]).is_integer():
+        OPT_CASES.setdefault(f"Z.eqb (register_after_global 1 ({int(k)})%Z) ({int(seen[0])})%Z",
+                             f"compute_local_expectation_gloop_expand(normalized='global') on a state with exponent={k}: "
+                             f"exponent register of the network handed to the per-term contractions = {seen[0]}")
+        ctx.bump("option_flow:register_observed")
+    else:
+        ctx.bump("option_flow:register_not_observed")
 
 
 def stage_3d(ctx, cases):
@@ -1521,6 +1616,17 @@ def run_coq(ctx, cases, name):
         # Gaussian integer, so a mismatch here is between the Coq model and numpy + implementation
         ctx.broken_obligation(f"correspondence:model_vs_impl:{d['state'].get('id')}:{wh}",
                               {"failing_site_tuples": wh, "state": d["state"], "n_values": d["n_values"]})
+    # option-flow / exponent-register correspondence (C13/Options.v): the model's table must predict the class of
+    # result every cube call returned, and the register the "global" branch leaves behind
+    if OPT_CASES:
+        oc = [(i + 1, e) for i, e in enumerate(OPT_CASES)]
+        desc = dict(zip(range(1, len(oc) + 1), OPT_CASES.values()))
+        f3, e3 = ctx.coq_cases(name + "_options", HEADER, oc, shard=400, jobs=2)
+        for path, err in e3:
+            ctx.broken_obligation("correspondence:" + path.split("/")[-1], err)
+        for c in f3:
+            ctx.broken_obligation(f"correspondence:option_flow:{dict(oc)[c]}", {"observed": desc[c], "model": dict(oc)[c]})
+        ctx.extra["option_flow_cases"] = len(oc)
     ctx.extra["coq_cases"] = ctx.extra.get("coq_cases", 0) + len(cases.cases)
     # a passing state case validates every one of its site tuples: count those as the validated traces
     ok = [cid for cid, _ in cases.cases if cid not in set(failed)]
@@ -1572,6 +1678,7 @@ def run(ctx):
 
     if os.path.exists(os.path.join(COQ, "C13", "Network.v")):
         mods.append("C13/Network.vo")
+    mods.append("C13/Options.vo")
     ctx.check_props(mods + ["C13/Props.v"])
     correspondence_and_oracle(ctx)
 
